@@ -194,6 +194,10 @@ def main(argv=None) -> int:
     ap.add_argument("--replay", default=None)
     ap.add_argument("--no-build", action="store_true")
     a = ap.parse_args(argv)
+    # never leave SIGALRM at its default action (terminate): time limits used by the checks save and restore "the old
+    # handler", and a timer tick that lands between two of them must be harmless
+    import signal as _signal
+    _signal.signal(_signal.SIGALRM, lambda *_: None)
     prop = a.prop
     t0 = time.time()
     ctx = Ctx(prop, a.tier, a.seed)
